@@ -75,6 +75,9 @@ func main() {
 		idx, _ := strconv.Atoi(os.Args[3])
 		n, _ := strconv.Atoi(os.Args[4])
 		checks.C07Worker(os.Args[2], idx, n, len(os.Args) > 5 && os.Args[5] == "thorough")
+	case "c07local":
+		d, _ := strconv.Atoi(os.Args[3])
+		checks.C07LocalWorker(os.Args[2], d)
 	case "c07clock":
 		checks.C07Clock(os.Args[2], os.Args[3])
 	case "c08sched":
